@@ -124,6 +124,27 @@ def install() -> types.ModuleType:
     lazy.__all__ = ["LazyExc", "lazy_func", "lazy_sub", "Eager"]  # type: ignore[attr-defined]
     lazy.Eager = GoodExc  # type: ignore[attr-defined]
     sys.modules[MOD + "_lazy"] = lazy
+
+    # the same, but as an instance of a ModuleType SUBCLASS whose class serves attributes lazily (six.moves, apipkg, modules
+    # that reassign __class__): class-level __getattr__ and a property
+    class LazyModule(types.ModuleType):
+        def __getattr__(self, name: str) -> Any:
+            if name in ("LazyExc", "lazy_func"):
+                CALLS.append("lazysub.__getattr__:" + name)
+                import importlib
+
+                mod = importlib.import_module("vt_unloaded_trap")
+                return getattr(mod, "Boom" if name == "LazyExc" else "run", None)
+            raise AttributeError(name)
+
+        @property
+        def computed(self) -> Any:
+            CALLS.append("lazysub.property")
+            return ValueError
+
+    lazysub = LazyModule(MOD + "_lazysub")
+    lazysub.Eager = GoodExc  # type: ignore[attr-defined]
+    sys.modules[MOD + "_lazysub"] = lazysub
     return m
 
 
